@@ -13,17 +13,12 @@ Theorem C04_new : forall x b, NInv_new x -> valid_next x b = true ->
 Proof. exact c04_new_lemma. Qed.
 Print Assumptions C04_new.
 
-(* LEGACY backend: the same under the explicit guard (no zero write to an absent slot, or genesis). *)
-Theorem C04_old : forall x b, NInv x -> valid_next x b = true -> guard_old x b = true ->
+(* LEGACY backend: the same, with no guard (since juno commit 1b89e86 the reverse diff of a slot without a
+   history entry above n-1 is the head value, so a zero write to an absent slot reverts like any other). *)
+Theorem C04_old : forall x b, NInv x -> valid_next x b = true ->
   exists x', revert_old_node (store_old_node x b) = Some x' /\ obs x' = obs x.
 Proof. exact c04_old_lemma. Qed.
 Print Assumptions C04_old.
-
-(* the guard is exactly what is missing: without it RevertHead of the legacy backend fails *)
-Theorem C04_old_guard_needed : forall x b, NInv x -> valid_next x b = true -> guard_old x b = false ->
-  revert_old_node (store_old_node x b) = None.
-Proof. exact c04_old_fails_lemma. Qed.
-Print Assumptions C04_old_guard_needed.
 
 (* the invariants are kept, so the theorems apply along every chain *)
 Theorem C04_inv_new : forall x b, NInv_new x -> valid_next x b = true -> NInv_new (store_new_node x b).
@@ -34,37 +29,32 @@ Proof. exact NInv_old_store. Qed.
 Print Assumptions C04_inv_old.
 
 (* fork convergence: follow fork A, revert it block by block, follow fork B == follow fork B *)
-Theorem fork_converges : forall A B x, NInv_new x -> all_valid store_new_node (fun _ _ => true) x A ->
+Theorem fork_converges : forall A B x, NInv_new x -> all_valid store_new_node x A ->
   obs (nrun_new (map NStore A ++ repeat NRevert (length A) ++ B) x) = obs (nrun_new B x).
 Proof. intros. rewrite fork_new_lemma; auto. Qed.
 Print Assumptions fork_converges.
 
-Theorem fork_converges_old : forall A B x, NInv x -> all_valid store_old_node guard_old x A ->
+Theorem fork_converges_old : forall A B x, NInv x -> all_valid store_old_node x A ->
   obs (nrun_old (map NStore A ++ repeat NRevert (length A) ++ B) x) = obs (nrun_old B x).
 Proof. intros. rewrite fork_old_lemma; auto. Qed.
 Print Assumptions fork_converges_old.
 
-(* ---------- the observed defect: a concrete reachable node and storable block ---------- *)
+(* ---------- non-vacuity; the block that used to break the legacy revert ---------- *)
 Definition g0 : block := mkBlock 1001 (mkDiff [(256, 10)] [] [] [] []) [(501, None); (502, Some 601)] 1 1 [(20, 30)] [].
 Definition b1 : block := mkBlock 1002 (mkDiff [] [] [] [((256, 7), 0)] []) [] 2 2 [] [].
 Definition x1 : node := store_old_node node_empty g0.
 
-Theorem C04_old_refuted : exists x b, NInv x /\ valid_next x b = true /\ revert_old_node (store_old_node x b) = None.
-Proof.
-  exists x1, b1. split; [|split].
-  - apply NInv_old_store; [apply NInv_empty | vm_compute; reflexivity].
-  - vm_compute. reflexivity.
-  - vm_compute. reflexivity.
-Qed.
-Print Assumptions C04_old_refuted.
-
-(* the same block on the new backend, and a non-zero write on the legacy one, revert fine *)
+(* block 1 writes zero to the never-written slot 7 (DESIGN 8.1): storable, and reverted exactly *)
+Example ex_old_noop_zero_reverts : valid_next x1 b1 = true /\ revert_old_node (store_old_node x1 b1) = Some x1.
+Proof. vm_compute. split; reflexivity. Qed.
 Example ex_new_reverts : revert_new_node (store_new_node (store_new_node node_empty g0) b1) = Some (store_new_node node_empty g0).
 Proof. vm_compute. reflexivity. Qed.
 Definition b1' : block := mkBlock 1002 (mkDiff [] [] [] [((256, 7), 3)] []) [(503, None)] 2 2 [] [20].
 Example ex_old_reverts : revert_old_node (store_old_node x1 b1') = Some x1.
 Proof. vm_compute. reflexivity. Qed.
-Example ex_hyps_satisfiable : valid_next x1 b1' = true /\ guard_old x1 b1' = true /\ valid_next node_empty g0 = true.
+Example ex_hyps_satisfiable : valid_next x1 b1' = true /\ valid_next node_empty g0 = true.
 Proof. vm_compute. repeat split. Qed.
-Example ex_fork : all_valid store_new_node (fun _ _ => true) (store_new_node node_empty g0) [b1'].
+Example ex_fork : all_valid store_new_node (store_new_node node_empty g0) [b1'].
+Proof. vm_compute. repeat split. Qed.
+Example ex_fork_old : all_valid store_old_node x1 [b1].
 Proof. vm_compute. repeat split. Qed.
